@@ -47,32 +47,51 @@ def scan_forbidden():
     return hits
 
 
+def prop_modules(prop_id):
+    """Lean modules holding the property's theorems: Canine/Props/Cxx.lean and supplementary modules
+    Canine/Props/Cxx_*.lean (a supplementary module exists where the helper-lemma family it needs cannot be
+    imported together with the family Cxx.lean uses; each is built and audited on its own)."""
+    d = os.path.join(LEAN, "Canine", "Props")
+    mods = [f"Canine.Props.{prop_id}"]
+    for f in sorted(os.listdir(d)):
+        if f.startswith(prop_id + "_") and f.endswith(".lean"):
+            mods.append("Canine.Props." + f[:-5])
+    return mods
+
+
+THEOREM_MODULE = {}
+
+
 def theorems_of(prop_id, extra_modules=()):
-    """Property theorems: every `theorem Cxx_*` in Canine/Props/Cxx.lean (with its namespace)."""
-    path = os.path.join(LEAN, "Canine", "Props", f"{prop_id}.lean")
-    src = strip_comments(open(path).read())
+    """Property theorems: every `theorem Cxx_*` in Canine/Props/Cxx.lean and Canine/Props/Cxx_*.lean (with its namespace)."""
     names = []
-    ns = []
-    for line in src.splitlines():
-        m = re.match(r"\s*namespace\s+(\S+)", line)
-        if m:
-            ns.append(m.group(1))
-            continue
-        m = re.match(r"\s*end\s+(\S+)", line)
-        if m and ns and ns[-1] == m.group(1):
-            ns.pop()
-            continue
-        m = re.match(r"\s*(?:private\s+)?theorem\s+(" + prop_id + r"_\w+)", line)
-        if m:
-            names.append(".".join(ns + [m.group(1)]))
+    for mod in prop_modules(prop_id):
+        path = os.path.join(LEAN, *mod.split(".")) + ".lean"
+        src = strip_comments(open(path).read())
+        ns = []
+        for line in src.splitlines():
+            m = re.match(r"\s*namespace\s+(\S+)", line)
+            if m:
+                ns.append(m.group(1))
+                continue
+            m = re.match(r"\s*end\s+(\S+)", line)
+            if m and ns and ns[-1] == m.group(1):
+                ns.pop()
+                continue
+            m = re.match(r"\s*(?:private\s+)?theorem\s+(" + prop_id + r"_\w+)", line)
+            if m:
+                n = ".".join(ns + [m.group(1)])
+                names.append(n)
+                THEOREM_MODULE[n] = mod
     return names
 
 
 def build_lean(prop_id, log):
     """lake build of the property's theorems and the driver. Returns (ok, output)."""
     t = time.time()
-    rc, out = sh(["lake", "build", f"Canine.Props.{prop_id}", "driver"], cwd=LEAN)
-    log(f"lake build Canine.Props.{prop_id} driver: rc={rc} ({time.time()-t:.1f}s)")
+    mods = prop_modules(prop_id)
+    rc, out = sh(["lake", "build"] + mods + ["driver"], cwd=LEAN)
+    log(f"lake build {' '.join(mods)} driver: rc={rc} ({time.time()-t:.1f}s)")
     return rc == 0, out
 
 
@@ -97,30 +116,42 @@ def failing_theorems(build_output):
 
 
 def audit_axioms(prop_id, names, log):
-    """`#print axioms` for every property theorem; returns {name: [axioms]} and raw output."""
+    """`#print axioms` for every property theorem (one audit file per module); returns {name: [axioms]} and raw output."""
     work = os.path.join(VERIF, ".work", prop_id)
     os.makedirs(work, exist_ok=True)
-    f = os.path.join(work, "Audit.lean")
-    with open(f, "w") as fh:
-        fh.write(f"import Canine.Props.{prop_id}\n")
-        for n in names:
-            fh.write(f"#print axioms {n}\n")
-    rc, out = sh(["lake", "env", "lean", f], cwd=LEAN)
     res = {}
-    # output: "'Name' depends on axioms: [a, b]" or "'Name' does not depend on any axioms"
-    for m in re.finditer(r"'([^']+)' depends on axioms: \[([^\]]*)\]", out):
-        res[m.group(1)] = [a.strip() for a in m.group(2).replace("\n", " ").split(",") if a.strip()]
-    for m in re.finditer(r"'([^']+)' does not depend on any axioms", out):
-        res[m.group(1)] = []
-    log(f"axiom audit: {len(res)}/{len(names)} theorems reported, rc={rc}")
-    return res, out
+    outs = []
+    rcs = []
+    for i, mod in enumerate(prop_modules(prop_id)):
+        mine = [n for n in names if THEOREM_MODULE.get(n, f"Canine.Props.{prop_id}") == mod]
+        if not mine:
+            continue
+        f = os.path.join(work, "Audit.lean" if i == 0 else f"Audit_{i}.lean")
+        with open(f, "w") as fh:
+            fh.write(f"import {mod}\n")
+            for n in mine:
+                fh.write(f"#print axioms {n}\n")
+        rc, out = sh(["lake", "env", "lean", f], cwd=LEAN)
+        rcs.append(rc)
+        outs.append(out)
+        # output: "'Name' depends on axioms: [a, b]" or "'Name' does not depend on any axioms"
+        for m in re.finditer(r"'([^']+)' depends on axioms: \[([^\]]*)\]", out):
+            res[m.group(1)] = [a.strip() for a in m.group(2).replace("\n", " ").split(",") if a.strip()]
+        for m in re.finditer(r"'([^']+)' does not depend on any axioms", out):
+            res[m.group(1)] = []
+    log(f"axiom audit: {len(res)}/{len(names)} theorems reported, rc={rcs}")
+    return res, "\n".join(outs)
 
 
 def leanchecker(prop_id, log):
     t = time.time()
-    rc, out = sh(["lake", "env", "leanchecker", f"Canine.Props.{prop_id}"], cwd=LEAN, timeout=1800)
-    log(f"leanchecker Canine.Props.{prop_id}: rc={rc} ({time.time()-t:.1f}s)")
-    return rc == 0, out
+    ok, outs = True, []
+    for mod in prop_modules(prop_id):
+        rc, out = sh(["lake", "env", "leanchecker", mod], cwd=LEAN, timeout=1800)
+        log(f"leanchecker {mod}: rc={rc} ({time.time()-t:.1f}s)")
+        ok = ok and rc == 0
+        outs.append(out)
+    return ok, "\n".join(outs)
 
 
 def build_harness(log):
